@@ -464,6 +464,6 @@ func c04Variants() []Variant {
 		{Name: "message-without-role", File: f, Old: "	copy(m[32:36], uint32ToBytes(role))\n", New: "	copy(m[32:36], uint32ToBytes(index))\n", Rule: "C04.B1", Construct: "MakeM"},
 		{Name: "overlapping-ranges", File: f, Old: "	copy(m[36:], uint32ToBytes(index))", New: "	copy(m[34:], uint32ToBytes(index))", Rule: "C04.B1", Construct: "MakeM"},
 		{Name: "seat-count-not-compared", File: f, Old: "	if j <= 0 {\n		return false, fmt.Errorf(\"not a validator.\")\n	}\n	if uint32(j) != subUsers {\n		return false, fmt.Errorf(\"sub-users' number is not correct:%x,%x\", j, subUsers)\n	}\n", New: "	if j <= 0 {\n		return false, fmt.Errorf(\"not a validator.\")\n	}\n	_ = subUsers\n", Rule: "C04.B3", Construct: "VrfVerifySortition"},
-		{Name: "verifier-uses-other-p", File: f, Old: "	j := choose(hash, stake, pFloat)\n	if j <= 0 {", New: "	j := choose(hash, stake, pFloat/2)\n	if j <= 0 {", Rule: "C04.B2", Construct: "VrfVerifySortition"},
+		{Name: "verifier-uses-other-p", File: f, Old: "	j := choose(hash, stake, pFloat)\n	if j <= 0 {", New: "	j := choose(hash, stake, pFloat/2)\n	if j <= 0 {", Rule: "C04.B2", Construct: ""},
 	}
 }
